@@ -566,6 +566,52 @@ def pCacheHist : P String := do
       | .error => " E")
   pure out
 
+/-- `proto <atomic> <tempPerProcess> <initRemoves> <guarded> <nsteps> steps…`
+steps: `I pid` construct, `B pid k res` savez starts, `E pid` savez completes, `N pid` os.replace,
+`G pid k` get, `K pid` the process dies.  One token per step: `ok`, `hit:<res>`, `miss`, `fail`, `stuck`;
+then `| entries` followed by `k=<res>` / `k=torn` for every key in 0..9 that has an entry. -/
+def pProto : P String := do
+  let aw ← pBool
+  let tp ← pBool
+  let ir ← pBool
+  let gd ← pBool
+  let cfg : ProtoCfg := { atomicWrite := aw, tempPerProcess := tp, initRemovesTemps := ir, guardedLoad := gd }
+  let n ← pNat
+  let mut steps : List PStep := []
+  for _ in [0:n] do
+    let t ← tok
+    if t == "I" then steps := steps ++ [PStep.init (← pNat)]
+    else if t == "B" then
+      let pid ← pNat
+      let k ← pNat
+      let r ← pNat
+      steps := steps ++ [PStep.beginWrite pid k r]
+    else if t == "E" then steps := steps ++ [PStep.endWrite (← pNat)]
+    else if t == "N" then steps := steps ++ [PStep.rename (← pNat)]
+    else if t == "G" then
+      let pid ← pNat
+      let k ← pNat
+      steps := steps ++ [PStep.read pid k]
+    else if t == "K" then steps := steps ++ [PStep.crash (← pNat)]
+    else failure
+  pEnd
+  let (w, outs) := prun cfg { fs := [], procs := [] } steps
+  let mut out := "ok"
+  for o in outs do
+    out := out ++ (match o with
+      | .ok => " ok"
+      | .hit r => s!" hit:{r}"
+      | .miss => " miss"
+      | .fail => " fail"
+      | .stuck => " stuck")
+  out := out ++ " | entries"
+  for k in [0:10] do
+    match w.fs.look (.final k) with
+    | some (.full r) => out := out ++ s!" {k}={r}"
+    | some .torn => out := out ++ s!" {k}=torn"
+    | none => pure ()
+  pure out
+
 def dispatch : P String := do
   let op ← tok
   if op == "solve" then pSolve
@@ -584,6 +630,7 @@ def dispatch : P String := do
   else if op == "km" then pKm
   else if op == "kmz0" then pKmz0
   else if op == "cachehist" then pCacheHist
+  else if op == "proto" then pProto
   else if op == "single" then pSingle
   else if op == "rt" then pRt
   else if op == "par" then pPar
